@@ -231,6 +231,29 @@ def run_case(case):
                 if not okd:
                     r.viol("duplicates_differ", "%s.%s gives different results for duplicated rows" % (label, opname),
                            err=errd, **det)
+        # (g) the same batch in another memory layout (feature-major storage as produced by `data.T`, channels-last images, a strided
+        #     slice of a larger array): results scattered through a flattened COPY of a non-contiguous tensor get lost for batches
+        #     but not for single rows
+        lays = []
+        if X.dim() == 2 and X.shape[1] > 1:
+            lays.append(("feature_major", X.t().contiguous().t()))
+        if X.dim() == 4:
+            lays.append(("channels_last", X.contiguous(memory_format=torch.channels_last)))
+            lays.append(("transposed_hw", X.transpose(2, 3).contiguous().transpose(2, 3)))
+        if X.dim() >= 2:
+            big = torch.zeros((2 * X.shape[0],) + tuple(X.shape[1:]), dtype=X.dtype)
+            big[::2] = X
+            lays.append(("strided_rows", big[::2]))
+        for lname, XL in lays:
+            try:
+                got = run(XL, ctx)
+            except Exception as e:
+                r.viol("raises_on_layout", "%s.%s raises for the same batch in another memory layout" % (label, opname), layout=lname,
+                       exc=repr(e)[:200], **det)
+                continue
+            r.ev()
+            r.count("layout_checks")
+            ok_all &= compare("layout:" + lname, got, slice(None), slice(None), {"layout": lname})
         # (f) the way a user compares: ONE object, the batch first and then its rows one at a time (an evaluation that
         #     drifts with every call - statistics updated in evaluation mode - shows here and not on fresh copies)
         try:
